@@ -5,6 +5,7 @@ import (
 	"fmt"
 	"math/rand/v2"
 	"reflect"
+	"strings"
 	"sync"
 	"time"
 
@@ -554,9 +555,88 @@ func c07DirectTypes() []reflect.Type {
 	}
 }
 
+// c07BigNested: 16 goroutines, each with a value of its own whose nested structs encode to 16 KiB
+// and more, every one of another size, marshal at once through the one shared codec: sizes,
+// length prefixes and bodies of a call are those of its own value.
+func c07BigNested(c *core.Ctx, idx int) {
+	rec := c.Rec
+	r := c.Rand(idx)
+	cfg := instCfgs()[idx%4]
+	name := cfgName(cfg)
+	p := instNew(cfg)
+	const g = 16
+	vals := make([]*types.BigOut, g)
+	refs := make([][]byte, g)
+	for w := range vals {
+		mk := func(k int) types.BigIn {
+			n := []int{200, 16384, 20000, 70000}[r.IntN(4)] + 700*w + 13*k
+			return types.BigIn{S: strings.Repeat(string(rune('a'+w)), n), B: bytes.Repeat([]byte{byte(w)}, n/3), N: make([]int32, r.IntN(50))}
+		}
+		in := mk(1)
+		vals[w] = &types.BigOut{ID: w, In: mk(0), P: &in, L: []types.BigIn{mk(2), mk(3)}, M: map[string]types.BigIn{"k": mk(4)}, Tail: fmt.Sprint("tail", w)}
+		b, err, pn := marshal(p, nil, vals[w])
+		if err != nil || pn != "" {
+			rec.Violation("marshal-error", fmt.Sprintf("[%s] %v %s", name, err, pn), nil)
+			return
+		}
+		refs[w] = b
+	}
+	rounds := 40
+	if c.Lane == "race" {
+		rounds = 6
+	}
+	var wg sync.WaitGroup
+	fails := make([]string, g)
+	start := make(chan struct{})
+	for w := 0; w < g; w++ {
+		wg.Add(1)
+		go func(w int) {
+			defer wg.Done()
+			<-start
+			var buf []byte
+			for k := 0; k < rounds && fails[w] == ""; k++ {
+				var err error
+				var out []byte
+				pn := core.Guard(func() { out, err = p.Marshal(buf[:0], vals[w]) })
+				if err != nil || pn != "" || !bytes.Equal(out, refs[w]) {
+					at := 0
+					for at < len(out) && at < len(refs[w]) && out[at] == refs[w][at] {
+						at++
+					}
+					fails[w] = fmt.Sprintf("goroutine %d, call %d: Marshal gives %d bytes, alone %d bytes, first difference at offset %d (%v %s)", w, k, len(out), len(refs[w]), at, err, trunc1(pn))
+					return
+				}
+				buf = out
+				if k%8 == 3 {
+					var back types.BigOut
+					if err, pn := unmarshal(p, out, &back); err != nil || pn != "" || back.In.S != vals[w].In.S || back.Tail != vals[w].Tail || len(back.L) != 2 || back.L[1].S != vals[w].L[1].S {
+						fails[w] = fmt.Sprintf("goroutine %d, call %d: Unmarshal of the bytes differs from the value (%v %s)", w, k, err, trunc1(pn))
+						return
+					}
+				}
+			}
+		}(w)
+	}
+	close(start)
+	wg.Wait()
+	rec.Eval(g * rounds)
+	rec.Count("big_nested_concurrent_marshals", g*rounds)
+	rec.NonTrivial(core.Hash64("bignested", name, fmt.Sprint(idx)))
+	for _, f := range fails {
+		if f != "" {
+			rec.Violation("concurrent-result", fmt.Sprintf("[%s] %d goroutines marshalling values with nested structs of 16 KiB and more, each of another size: %s", name, g, f), nil)
+			return
+		}
+	}
+}
+
 func c07Case(c *core.Ctx, idx int) {
 	if c.Lane == "systematic" {
 		c07Systematic(c, idx)
+		return
+	}
+	if idx%101 == 7 {
+		c07BigNested(c, idx)
 		return
 	}
 	if idx%397 == 5 {
